@@ -106,3 +106,48 @@ Proof.
     + intros x _. cbn [sum]. rewrite (sum_ext (rr c) (fun e => g c a2 x 0%nat e * cconj R (g c a1 x 0%nat e)) (fun e => cconj R (g c a1 x 0%nat e) * g c a2 x 0%nat e)) by (intros; ring). ring.
 Qed.
 End Born.
+
+(* all later sites measured: the tail of Born cores of a right-orthonormal state contracts to vec(I) *)
+Section BornTail.
+Context {R : cring}.
+Add Ring Rr33 : (cring_th R).
+Open Scope cr_scope.
+Notation core := (core R).
+
+Lemma vecI_square r a1 a2 : (0 < r)%nat -> (a2 < r)%nat -> @vecI R (r * r) (a1 * r + a2) = delta a1 a2.
+Proof.
+  intros Hr H2. unfold vecI, delta. rewrite Nat.sqrt_square.
+  rewrite div_mod_unique_l, div_mod_unique_r by exact H2. reflexivity.
+Qed.
+
+Definition rr_last (cs : list core) (fin : nat) : nat := fin.
+Theorem born_tail_weight : forall (cs : list core) b1 b2,
+  Forall (fun c => nd c = 1%nat) cs -> Forall right_iso cs -> linked cs 1%nat -> Forall (fun c => (0 < rl c)%nat) cs ->
+  (b1 < rl_of cs 1)%nat -> (b2 < rl_of cs 1)%nat ->
+  tail_weight (map born cs) (b1 * rl_of cs 1 + b2)%nat = delta b1 b2.
+Proof.
+  induction cs as [|c cs IH]; intros b1 b2 Hnd HR HL Hpos H1 H2.
+  - cbn [rl_of] in *. assert (b1 = 0%nat) by lia. assert (b2 = 0%nat) by lia. subst.
+    unfold tail_weight. cbn [map rows msum chain length zeros repeat]. reflexivity.
+  - inversion Hnd as [|? ? Hnd0 Hnd']; subst. inversion HR as [|? ? HR0 HR']; subst.
+    inversion Hpos as [|? ? Hp0 Hp']; subst.
+    cbn [linked] in HL. destruct HL as (Hrr & Hlk & HL). cbn [rl_of] in H1, H2.
+    unfold tail_weight. cbn [map rows length]. fold (rows (map born cs)).
+    change (zeros (S (length (map born cs)))) with (0%nat :: zeros (length (map born cs))).
+    cbn [msum]. change (md (born c)) with (md c).
+    rewrite <- (born_core_tail c b1 b2 Hnd0 HR0 Hrr H1 H2).
+    apply sum_ext; intros x Hx.
+    cbn [chain]. unfold mmul. change (rr (born c)) with (rr c * rr c)%nat. cbn [rl_of].
+    rewrite <- (msum_sum (rows (map born cs)) (rr c * rr c)
+                 (fun e xs => cmat (born c) x 0%nat (b1 * rl c + b2)%nat e * chain (map born cs) xs (zeros (length (map born cs))) e 0%nat)).
+    apply sum_ext; intros e He. rewrite msum_scal_l. unfold cmat. f_equal.
+    (* e = e1 * rr c + e2 with rr c = rl_of cs 1 *)
+    assert (Hdiv : (e = (e / rr c) * rr c + e mod rr c)%nat) by (rewrite Nat.mul_comm; apply Nat.div_mod; lia).
+    assert (He1 : (e / rr c < rr c)%nat) by (apply Nat.div_lt_upper_bound; lia).
+    assert (He2 : (e mod rr c < rr c)%nat) by (apply Nat.mod_upper_bound; lia).
+    pose proof (@vecI_square (rr c) (e / rr c)%nat (e mod rr c)%nat Hrr He2) as HV. rewrite <- Hdiv in HV. rewrite HV.
+    rewrite Hlk in He1, He2 |- *.
+    specialize (IH (e / rl_of cs 1)%nat (e mod rl_of cs 1)%nat Hnd' HR' HL Hp' He1 He2).
+    unfold tail_weight in IH. rewrite Hlk in Hdiv. rewrite <- Hdiv in IH. exact IH.
+Qed.
+End BornTail.
